@@ -1,6 +1,7 @@
 package main
 
 import (
+	"bytes"
 	"fmt"
 	"strconv"
 	"strings"
@@ -175,6 +176,9 @@ func genC06(r *rng, tier string) *Case {
 		p.Consume = pick(r, 1, 3, 15)
 	} else {
 		p.Term = Stage{Op: pick(r, fullTerms...)}
+		if r.chance(0.05) {
+			p.Term = Stage{Op: "listeq", N: r.intn(320)}
+		}
 	}
 	if p.Term.Op == "multiUse" {
 		for k := r.rangeInt(1, 3); k > 0; k-- {
@@ -201,7 +205,7 @@ func genC06(r *rng, tier string) *Case {
 	nIds := ts + 1 + len(p.MU)
 	costs, ck := genCosts(r, nIds, costStages, p.N)
 	host := HostTables{Costs: costs}
-	full := !short
+	full := !short && p.Term.Op != "listeq" // a comparison may be decided without reading everything
 	for _, s := range p.Stages {
 		if s.Op == "top" {
 			full = false
@@ -230,6 +234,19 @@ func genC06(r *rng, tier string) *Case {
 			} else {
 				host.Fails[s] = Match{Kind: "ge", A: r.rangeInt(0, 3*p.N+5)}
 			}
+			hasFail = true
+		}
+	}
+	if full && !hasFail && r.chance(0.12) {
+		// language-level type errors (not host errors) on many elements: several workers fail at once
+		var cands []int
+		for i := range p.Stages {
+			if hasClosure(p.Stages[i].Op) && p.Stages[i].Op != "fsm" && p.Stages[i].Op != "combineN" {
+				cands = append(cands, i)
+			}
+		}
+		if len(cands) > 0 {
+			p.Stages[pick(r, cands...)].TypeErr = pick(r, 2, 3, 5, 17)
 			hasFail = true
 		}
 	}
@@ -730,6 +747,14 @@ func genC08(r *rng, tier string) *Case {
 			need, x.Need2 = k+offset, k+offset
 		}
 	}
+	// a sparse filter upstream: behind the decisive element (plus a little slack) nothing passes any more,
+	// so a stop that only takes effect "at the next item" never takes effect on a huge source
+	if second == "" && term != "multiUse" && term != "single" && r.chance(0.2) {
+		at := 1 + r.intn(len(p.Stages)) // never in front of the probing first stage
+		sp := Stage{Op: "accept", Ident: true, Sparse: need + r.rangeInt(1, 4)}
+		p.Stages = append(p.Stages[:at:at], append([]Stage{sp}, p.Stages[at:]...)...)
+		x.SparseAt = sp.Sparse
+	}
 	// the decisive source element, without read-ahead (sequential-mode error oracle)
 	if second == "" {
 		x.HasDec = true
@@ -778,6 +803,12 @@ func genC12(r *rng, tier string) *Case {
 		// every way parsing can stop early
 		kind := pick(r, "value", "value", "value", "float", "bool")
 		text, class := genParseText(r, kind, 1200)
+		for bytes.Contains(text, []byte("y->y(y)")) {
+			// Constant programs that recurse forever through list methods kill the process
+			// inside Generate (finding of C04/C05): there is no return after which a
+			// leftover goroutine could be looked for, so they are not part of this workload.
+			text, class = genParseText(r, kind, 1200)
+		}
 		// make most of them erroneous in the middle: append junk after a valid prefix
 		if class == "valid" && r.chance(0.7) {
 			text = append(text, []byte(pick(r, " )", " 1 2", " ]+1", " \"", " ;;", " x y z", " @ 1+2+3", " let", " 1 + + 2 + 3 + 4"))...)
@@ -853,6 +884,12 @@ func genC12(r *rng, tier string) *Case {
 				p.MU = append(p.MU, Stage{Op: pick(r, "first", "topsize", "sum", "size", "noread", "noread", "present", "last", "sum", "size", "notfunc", "arity2", "twice", "twice", "twice-short"), N: r.rangeInt(1, 30)})
 			}
 		}
+	}
+	if !huge && r.chance(0.12) {
+		// comparison of two lazy lists (one a prefix of the other, equal, different, erroneous)
+		p.Term = Stage{Op: "listeq", N: r.intn(320)}
+		p.MU = nil
+		tk = "listeq"
 	}
 	nIds := len(p.Stages) + 1 + len(p.MU)
 	costs, ck := genCosts(r, nIds, costStages, 200)
